@@ -13,7 +13,7 @@ P = {
          "Every set of disjoint regions over U cells (adjacent vs merged distinguished) at several bases including the top of the address space, every query method at every address/length of the universe plus extremes; huge layouts probed at boundaries through raw regions; the trait-default mock keeps its regions in an order of its own (as given, reversed, rotated); regions carved out of one host mapping (adjacent in the host too); layouts ending at 2^64 offered to the mmap collection as well.",
          "Small universe (6..8 cells) for exhaustive part; large layouts only at boundary addresses. len=0 ranges recorded, not judged.", "2/C02"),
  "C03": ("model_checking", "E1-bfs", "explicit-state BFS over operation histories on real guest memory with a sparse byte-map reference model; full-memory diff after every transition",
-         "All layouts over a small universe x all (op, address, length) at depth 1 and all depth-2/3 histories over a reduced alphabet, on anonymous, file-backed and Xen-UNIX regions and a trait-default mock (unordered storage), short streams that also report Interrupted, regions beyond a MiB with single transfers up to 3 MiB; after each step every byte of every region is compared with the model.",
+         "All layouts over a small universe x all (op, address, length) at depth 1 and all depth-2/3 histories over a reduced alphabet, on anonymous, file-backed and Xen-UNIX regions and a trait-default mock (unordered storage), short streams that also report Interrupted, regions beyond a MiB with single transfers up to 3 MiB, one region of 64 MiB with transfers beyond 2^26 bytes; after each step every byte of every region is compared with the model.",
          "Universe of 6..7 one-byte cells; object types up to 16 bytes; ample in-memory streams (short streams belong to C14).", "2/C03"),
  "C04": ("model_checking", "E1-bfs", "explicit-state exploration of operation histories on one container against a Vec<u8> model, depth-1 full alphabet and depth-2 route pairs",
          "All accessors x all (offset, length, type) on containers of 0..24 bytes at every misalignment, every (src mod 8, dst mod 8, len<=9) class of the small-copy routine, depth-2 product of write route x read route, depth-3 on a reduced alphabet and write / nearly identical rewrite / read histories; single transfers of 2^24+1 bytes on a 16 MiB region; container (frame included) compared byte for byte after every operation.",
@@ -46,7 +46,7 @@ P = {
          "Every adapter the crate provides x every stream length 0..20, cursor position incl. past-the-end and u64::MAX, buffer length 0..20 x sequences of up to 3 (thorough 4) calls, single transfers up to 2^21 (thorough 2^24) bytes, plain and exact forms; descriptor adapters also under short and EINTR-interrupted system calls, wrong access modes and datagram sockets; same count, bytes, remaining stream state and error kind as std.",
          "TcpStream/Stdout exercised only where the sandbox allows; stream state after a failed exact call not compared.", "2/C13"),
  "C14": ("fault_enumeration", "E2-choice-tree", "choice-tree DFS over all fault scripts (short/zero/EINTR*/error) of the underlying stream, scripted adapters and interposed read/write syscalls",
-         "Every script of per-call behaviours up to the length bound for three targets (slice, region, guest memory spanning two regions and a hole), all four transfer forms plus the trait-level exact forms; transfer model: EINTR retried (also 33, 64 and 1000 times in a row), transfers of up to 3 MiB with short calls around 2^20 and failing calls, errors surface, no byte lost or duplicated.",
+         "Every script of per-call behaviours up to the length bound for three targets (slice, region, guest memory spanning two regions and a hole), all four transfer forms plus the trait-level exact forms; transfer model: EINTR retried (also 33, 64 and 1000 times in a row), transfers of up to 3 MiB with short calls around 2^20 and failing calls, host byte buffers as readers, errors surface, no byte lost or duplicated.",
          "Scripts up to 5 calls, EINTR runs up to 3; counts {0,1,5,8,9,13}.", "2/C14"),
  "C15": ("fault_enumeration", "exhaustive-inputs + fault injection", "exhaustive enumeration of construction requests (sizes x file lengths x offsets x flag words incl. all Xen flag bytes) with injected mmap/ioctl failures, interposed mapping log",
          "Acceptance predicate from the statement; attribute echo on success; nothing left mapped on failure (interposed log); sequences of file lengths through one FileOffset lineage; every length query answered with EIO / 0 / 2^40; shared file coherence byte by byte; file offsets around 2^31, 2^32, 2^33 in a sparse file; the descriptor's cursor left anywhere; explicit flag and protection words echoed for every Xen mapping type; anonymous builder x hugetlbfs hint x sizes around 2 MiB multiples, refusals compared with the kernel's own answer; Xen: all 256 low flag bytes and every high bit, emulated devices, injected failures.",
@@ -64,7 +64,7 @@ P = {
          "impl_address_ops! from the current tree instantiated at width 8 (all 2^16 pairs per operation) and 16 (thorough, all 2^32); GuestAddress/MemoryRegionAddress at width 64 on the +-4 grid around 0, 2^8.. 2^64 squared and all 64 alignments.",
          "Width 64 is covered by a boundary grid, not exhaustively; genericity of the macro over the width.", "2/C19"),
  "C20": ("exploration", "exhaustive-inputs", "exhaustive enumeration of all 16-bit values (and all 32-bit in thorough), structured byte alphabet for 64-bit, against to_le_bytes/to_be_bytes",
-         "Round trip, in-memory bytes, equality both ways, size/alignment and bytes found in guest memory after write_obj for all eight wrappers; placement at every offset, objects across regions, records of wrappers, typed copies of 1..257 wrappers at every address mod 8, overlapping moves of stored wrappers, wire bytes through host byte buffers at every offset within a word.",
+         "Round trip, in-memory bytes, equality both ways, size/alignment and bytes found in guest memory after write_obj for all eight wrappers; placement at every offset, objects across regions, records of wrappers, typed copies of 1..257 wrappers at every address mod 8, overlapping moves of stored wrappers, wire bytes through host byte buffers at every offset within a word and through std writers / readers that move a few bytes per call.",
          "64-bit coverage is a bounded alphabet (6^8 byte patterns + rotations + single bits).", "2/C20"),
 }
 
